@@ -65,7 +65,7 @@ Theorem rejects_each_kind :
   /\ (forall w k nk ns, g_compiled (w_g w) = false ->
         is_se k = true \/ has_node (w_g w) k = true \/ (ns = true /\ g_state (w_g w) = false) ->
         g_err (w_g (fst (wstep fixed w (WAddNode k nk ns)))) <> None)
-  /\ (forall w o ord, existsb (bad_branch w) (w_branches w) = true -> is_err (snd (w_compile fixed w o ord)))
+  /\ (forall w o ord sord, existsb (bad_branch w) (w_branches w) = true -> is_err (snd (w_compile fixed w o ord sord)))
   /\ (forall g c, snd (gstep fixed g c) <> OPanic)
   /\ (forall c call, snd (cstep fixed c call) <> OPanic)
   /\ (forall w call, snd (wstep fixed w call) <> OPanic).
@@ -98,14 +98,14 @@ Proof. vm_compute. reflexivity. Qed.
    [g_cmp] is CChain / CWorkflow in every state reachable from NewChain / NewWorkflow. *)
 Theorem rejects_deferred :
   (forall c o, g_cmp (c_g c) = CChain -> o_trigger o <> None -> is_err (snd (cstep fixed c (CCompile o))))
-  /\ (forall w o ord, g_cmp (w_g w) = CWorkflow -> (o_trigger o <> None \/ (0 < o_max_steps o)%Z) ->
-        is_err (snd (wstep fixed w (WCompile o ord))))
-  /\ (forall w o ord, g_compiled (w_g w) = false ->
+  /\ (forall w o ord sord, g_cmp (w_g w) = CWorkflow -> (o_trigger o <> None \/ (0 < o_max_steps o)%Z) ->
+        is_err (snd (wstep fixed w (WCompile o ord sord))))
+  /\ (forall w o ord sord, g_compiled (w_g w) = false ->
         (exists b, In b (w_branches w) /\ bad_branch_call (w_g w) b) ->
-        is_err (snd (wstep fixed w (WCompile o ord))))
-  /\ (forall w o ord k n i,
+        is_err (snd (wstep fixed w (WCompile o ord sord))))
+  /\ (forall w o ord sord k n i,
         alist_get k (w_nodes w) = Some n -> In i (wn_pending n) -> unknown_source (w_g w) i ->
-        is_err (snd (wstep fixed w (WCompile o ord))))
+        is_err (snd (wstep fixed w (WCompile o ord sord))))
   /\ ((forall v st cs, g_cmp (c_g (final (cstep v) (c_init st) cs)) = CChain)
       /\ (forall v st cs, g_cmp (w_g (final (wstep v) (w_init st) cs)) = CWorkflow)).
 Proof.
@@ -117,7 +117,7 @@ Print Assumptions rejects_deferred.
 Example rejects_deferred_nonvacuous :
   (let w := final (wstep fixed) (w_init false) wf_unknown_input in
    exists n i, alist_get "a" (w_nodes w) = Some n /\ In i (wn_pending n) /\ unknown_source (w_g w) i)
-  /\ snd (wstep fixed (final (wstep fixed) (w_init false) wf_unknown_input) (WCompile opt_default []))
+  /\ snd (wstep fixed (final (wstep fixed) (w_init false) wf_unknown_input) (WCompile opt_default [] []))
      = OErr EEdgeStartUnknown.
 Proof. exact (conj wf_unknown_input_hyp wf_unknown_input_rejected). Qed.
 
@@ -147,7 +147,7 @@ Theorem runner_unaffected :
       runner_view (final (gstep fixed) g1 cs) r = runner_view g1 r)
   /\ (forall c o c1 r cs, cstep fixed c (CCompile o) = (c1, OCompiled r) ->
       runner_view (c_g (final (cstep fixed) c1 cs)) r = runner_view (c_g c1) r)
-  /\ (forall w o ord w1 r cs, wstep fixed w (WCompile o ord) = (w1, OCompiled r) ->
+  /\ (forall w o ord sord w1 r cs, wstep fixed w (WCompile o ord sord) = (w1, OCompiled r) ->
       runner_view (w_g (final (wstep fixed) w1 cs)) r = runner_view (w_g w1) r).
 Proof. exact (conj graph_runner_unaffected (conj chain_runner_unaffected workflow_runner_unaffected)). Qed.
 Print Assumptions runner_unaffected.
@@ -156,7 +156,7 @@ Example runner_unaffected_nonvacuous :
   match first_runner fixed with
   | Some (w1, r) =>
       rv_prenode (runner_view (w_g w1) r) = ["a"] /\
-      rv_prenode (runner_view (w_g (fst (wstep fixed w1 (WCompile opt_default [])))) r) = ["a"]
+      rv_prenode (runner_view (w_g (fst (wstep fixed w1 (WCompile opt_default [] [])))) r) = ["a"]
   | None => False
   end.
 Proof. exact wf_compile_twice_fixed. Qed.
@@ -180,8 +180,8 @@ Theorem compile_sound :
   /\ (forall st cs o c1 r,
       cstep fixed (final (cstep fixed) (c_init st) cs) (CCompile o) = (c1, OCompiled r) ->
       well_formed (c_g c1) o /\ runner_of (c_g c1) o r)
-  /\ (forall st cs o ord w1 r,
-      wstep fixed (final (wstep fixed) (w_init st) cs) (WCompile o ord) = (w1, OCompiled r) ->
+  /\ (forall st cs o ord sord w1 r,
+      wstep fixed (final (wstep fixed) (w_init st) cs) (WCompile o ord sord) = (w1, OCompiled r) ->
       well_formed (w_g w1) o /\ runner_of (w_g w1) o r).
 Proof. exact (conj graph_compile_sound (conj chain_compile_sound workflow_compile_sound)). Qed.
 Print Assumptions compile_sound.
@@ -264,28 +264,44 @@ Proof. exact infer_example_run. Qed.
 (* ------------------------------------------------------------------ determinism of Workflow.Compile *)
 (* Workflow.compile applies the deferred inputs node by node in Go's map order ([ord]).  At
    every point of every call sequence (whatever orders earlier Compiles took), whether the
-   next Compile ACCEPTS does not depend on the order it takes; and whether its node phase
+   next Compile ACCEPTS does not depend on the orders its two loops take ([ord]: deferred inputs, [sord]: static values); and whether its node phase
    meets a deferred error depends only on the set of nodes, not on the order.  (Which
    error a rejected Compile reports, and what it leaves behind, does depend on the order:
    [two_failing_orders].) *)
 Theorem workflow_compile_order_independent :
-  (forall st cs o ord1 ord2,
+  (forall st cs o ord1 sord1 ord2 sord2,
       let w := final (wstep fixed) (w_init st) cs in
-      is_compiled (snd (wstep fixed w (WCompile o ord1))) = is_compiled (snd (wstep fixed w (WCompile o ord2))))
+      is_compiled (snd (wstep fixed w (WCompile o ord1 sord1))) = is_compiled (snd (wstep fixed w (WCompile o ord2 sord2))))
   /\ (forall w L1 L2, (forall k, In k L1 <-> In k L2) ->
       (snd (run_nodes w L1) = None <-> snd (run_nodes w L2) = None)).
 Proof.
   split.
-  - intros st cs o ord1 ord2 w. apply w_compile_order_independent. apply reachable_wf_ok.
+  - intros st cs o ord1 sord1 ord2 sord2 w. apply w_compile_order_independent. apply reachable_wf_ok.
   - exact run_nodes_verdict_order_independent.
 Qed.
 Print Assumptions workflow_compile_order_independent.
 
 Example workflow_compile_order_nonvacuous :
   let w := final (wstep fixed) (w_init false) two_failing in
-  snd (w_compile fixed w opt_default ["a"]) = OErr EEdgeStartUnknown /\
-  snd (w_compile fixed w opt_default ["b"]) = OErr EMapped.
+  snd (w_compile fixed w opt_default ["a"] []) = OErr EEdgeStartUnknown /\
+  snd (w_compile fixed w opt_default ["b"] []) = OErr EMapped.
 Proof. exact two_failing_orders. Qed.
+
+(* no_modification_after_compile, continued (F-C20e): a static value set on a node of a
+   compiled Workflow is not applied by the next Compile — it fails, for every pair of orders *)
+Theorem static_value_after_compile_refused :
+  forall w o ord sord k n,
+    g_compiled (w_g w) = true -> alist_get k (w_nodes w) = Some n -> wn_static n <> [] ->
+    is_err (snd (wstep fixed w (WCompile o ord sord))).
+Proof. exact static_after_compile_refused. Qed.
+Print Assumptions static_value_after_compile_refused.
+
+Example static_value_after_compile_nonvacuous :
+  match snd (run_calls (wstep fixed) (w_init false) static_after_compile) with
+  | [OOk; OOk; OOk; OCompiled _; OOk; OErr ECompiled] => True
+  | _ => False
+  end.
+Proof. exact static_after_compile_fixed. Qed.
 
 (* ------------------------------------------------------------------ the repaired defects *)
 (* F-C20a: on the original code a Workflow branch to a node that was never added made
@@ -296,7 +312,7 @@ Proof. exact never_panics_v0_false. Qed.
 
 (* F-C20b: on the original code a second Compile changed what the first runner computes with *)
 Theorem runner_unaffected_v0_refuted :
-  ~ (forall w o ord w1 r cs, wstep v0 w (WCompile o ord) = (w1, OCompiled r) ->
+  ~ (forall w o ord sord w1 r cs, wstep v0 w (WCompile o ord sord) = (w1, OCompiled r) ->
       runner_view (w_g (final (wstep v0) w1 cs)) r = runner_view (w_g w1) r).
 Proof. exact runner_unaffected_v0_false. Qed.
 
@@ -310,3 +326,10 @@ Theorem chain_error_sticks_v0_refuted :
   ~ (forall c e cs, c_err c = Some e ->
        Forall2 (fun call o => c_is_compile call = true -> o = OErr e) cs (snd (run_calls (cstep v0) c cs))).
 Proof. exact chain_sticks_v0_false. Qed.
+
+(* F-C20e: on the original code a static value set after a successful Compile was applied
+   by the next Compile, which returned a different runnable *)
+Theorem static_value_after_compile_v0_refuted :
+  ~ (forall w o ord sord k n, g_compiled (w_g w) = true -> alist_get k (w_nodes w) = Some n -> wn_static n <> [] ->
+       is_err (snd (w_compile v0 w o ord sord))).
+Proof. exact static_after_compile_v0_false. Qed.
